@@ -155,8 +155,23 @@ static void evt_victim(m_mod_t *m, const m_queue_t *const q) {
     }
 }
 
+static m_mod_t *flipper;          /* a module of the owner's context that keeps changing state while foreign threads read it */
+static atomic_int getter_bad;
+static void foreign_getters(void) {
+    /* the plain getters are the only calls a foreign thread may make: they must be safe against the owner's transitions */
+    for (int i = 0; i < 300; i++) {
+        m_mod_states st = m_mod_state(flipper);
+        if (st != M_MOD_IDLE && st != M_MOD_RUNNING && st != M_MOD_PAUSED && st != M_MOD_STOPPED) getter_bad++;
+        (void)m_mod_is(flipper, M_MOD_RUNNING | M_MOD_PAUSED);
+        const char *n = m_mod_name(flipper);
+        if (!n || strcmp(n, "flipper") != 0) getter_bad++;
+        (void)m_mod_userdata(flipper);
+    }
+}
+
 static void foreign_calls(const char *role, m_mod_t *mine) {
     m_mod_t *v = victim;
+    foreign_getters();
     int fdp[2]; if (pipe(fdp) != 0) return;
     m_src_tmr_t tm = { CLOCK_MONOTONIC, 5000000 }; m_src_sgn_t sg = { SIGUSR1 }; m_src_path_t pt = { "/tmp", 256 };
     m_src_pid_t pd = { getpid(), 0 }; m_src_task_t tk = { 1, task_fn }; m_src_thresh_t th = { 5, 0 };
@@ -247,12 +262,17 @@ static void run_matrix(void) {
     m_mod_register("victim", &victim, &hk, 0, NULL);
     m_mod_start(victim);
     m_mod_ps_subscribe(victim, "alpha", 0, NULL);
+    { m_mod_hook_t fk = { NULL, NULL, evt_noop, NULL }; m_mod_register("flipper", &flipper, &fk, 0, NULL); }
     m_mod_stats_t s0, s1; m_mod_stats(victim, &s0);
     ssize_t len0 = m_mod_src_len(victim, M_SRC_TYPE_END);
     pthread_create(&a, NULL, matrix_other_ctx, NULL);
     pthread_create(&b, NULL, matrix_no_ctx, NULL);
-    pthread_barrier_wait(&bar);      /* let both foreign threads hammer the victim while we are parked */
+    pthread_barrier_wait(&bar);      /* let both foreign threads hammer the victim ... */
+    for (int i = 0; i < 100; i++) {  /* ... while the flipper goes through its states */
+        m_mod_start(flipper); m_mod_pause(flipper); m_mod_resume(flipper); m_mod_stop(flipper);
+    }
     pthread_barrier_wait(&bar);
+    if (getter_bad) { matrix_fail++; printf("FAIL C14/getter-inconsistent | a foreign thread read an impossible state or name (%d times) while the owner changed the module's state\n", (int)getter_bad); }
     /* nothing may have changed */
     if (m_mod_state(victim) != M_MOD_RUNNING) { matrix_fail++; printf("FAIL C14/foreign-call-had-effect | victim state is %d after the foreign calls\n", m_mod_state(victim)); }
     if (m_mod_src_len(victim, M_SRC_TYPE_END) != len0) { matrix_fail++; printf("FAIL C14/foreign-call-had-effect | victim source count changed %zd -> %zd\n", len0, m_mod_src_len(victim, M_SRC_TYPE_END)); }
@@ -283,8 +303,10 @@ static void run_matrix(void) {
     m_ctx_quit(0); m_ctx_dispatch();
     pthread_join(a, NULL); pthread_join(b, NULL);
     m_mod_deregister(&victim);
+    m_mod_deregister(&flipper);
     m_ctx_deregister();
     vf_stat("matrix_runs", 1);
+    vf_stat("foreign_getter_calls", 2 * 2 * 300 * 4);
 }
 
 int main(int argc, char **argv) {
